@@ -294,14 +294,19 @@ class Axis(GetSetDelAttrMixin, AbstractAxis):
         elif other.values.size == 0:
             return self
 
-        def _same_slope(a, b):
-            " both decreasing or both increasing "
-            return (a[-1]>=a[0])==(b[-1]>=b[0])
+        def _increasing(a):
+            " True or False; None for fewer than two values (no direction of its own) "
+            return None if a.size < 2 else bool(a[-1]>=a[0])
 
-        if consistent_kinds and self.is_monotonic() and other.is_monotonic() and _same_slope(self.values, other.values):
+        sorted_join = consistent_kinds and self.is_monotonic() and other.is_monotonic()
+        if sorted_join:
+            inc0, inc1 = _increasing(self.values), _increasing(other.values)
+            sorted_join = inc0 is None or inc1 is None or inc0 == inc1
+
+        if sorted_join:
             # join two sorted axes
             joined = np.union1d(self.values, other.values)
-            if self.values[-1] <= self.values[0]: # decreasing !
+            if inc0 is False or (inc0 is None and inc1 is False): # decreasing !
                 joined = joined[::-1]
 
         else:
